@@ -1,5 +1,6 @@
 SPECIFICATION RSpec
 CONSTANT FIXES <- Without_F2
+CONSTANT ENV <- NoEnv
 INVARIANT Inv_C05
 INVARIANT Inv_C06
 INVARIANT Inv_C07
